@@ -1564,3 +1564,31 @@ V('C05', 'budget-per-task', SIM, """        start_time = get_time()
                 if not task.done():""", 'R05.5')
 V('C07', 'bisect-right', CRON, "index = bisect.bisect_left(timetable, nowt) % tlen", "index = bisect.bisect_right(timetable, nowt) % tlen", 'R07.6')
 E('C05', 'budget-elapsed-form', SIM, "await asyncio.wait_for(task, timeout - get_time() + start_time)", "await asyncio.wait_for(task, timeout - (get_time() - start_time))")
+
+# ---- C19 R19.3b (fraction test vs separator class of the pattern; seeded change C19-1)
+V('C19', 'comma-fraction-unchecked', TU, """        if (decimal_comma := ',' in value) or ('.' in value):
+            if not smallest_unit:
+                raise ValueError("only the smallest unit may have a fractional part")
+            if decimal_comma:
+                value = value.replace(',', '.', 1)
+        num = float(value)
+""", """        if '.' in value and not smallest_unit:
+            raise ValueError("only the smallest unit may have a fractional part")
+        num = float(value.replace(',', '.', 1))
+""", 'R19.3')
+V('C19', 'comma-not-replaced-when-smallest', TU, """            if decimal_comma:
+                value = value.replace(',', '.', 1)
+""", """            if decimal_comma and not smallest_unit:
+                value = value.replace(',', '.', 1)
+""", 'R19.3')
+E('C19', 'fraction-test-two-ifs', TU, """        if (decimal_comma := ',' in value) or ('.' in value):
+            if not smallest_unit:
+                raise ValueError("only the smallest unit may have a fractional part")
+            if decimal_comma:
+                value = value.replace(',', '.', 1)
+        num = float(value)
+""", """        value = value.replace(',', '.')
+        if '.' in value and not smallest_unit:
+            raise ValueError("only the smallest unit may have a fractional part")
+        num = float(value)
+""")
